@@ -513,6 +513,21 @@ func runC08(c *eng.Ctx) {
 
 	c.Rule("GUARD", "pkg/queue.queue.persistMetaOfMessage{cached index page = page of the sequence}", func() { cachedIndexPageRule(c) })
 	c.Rule("OWNER", "replica{SetAckIndex}", func() { setAckIndexOwner(c) })
+	// a handshake never trusts the connection of the failed period: the client is obtained from the factory again (a node failure
+	// closes and drops the pooled connection; a follower may come back on another address)
+	c.Rule("ORDER", rrT+".IsReady{the handshake obtains its client from the factory}", func() {
+		f := c.Fn(rrT + ".IsReady")
+		mk := c.Some(f, invokeOn(".cliFct", "CreateReplicaServiceClient"), "cliFct.CreateReplicaServiceClient(node)")
+		for i, g := range c.Some(f, eng.AnyCallTo(rrT+".getLastAckIdxFromReplica"), "getLastAckIdxFromReplica()") {
+			c.Check(eng.DominatedBy(f, g.Instr, mk, nil), fmt.Sprintf("client-before-handshake[%d]", i), g.Instr, f,
+				"every handshake is made over a client taken from the factory in this very handshake", "a path reaches the handshake with the client of an earlier period")
+		}
+		st := c.Some(f, eng.StoreField(rrT+".replicaCli"), "r.replicaCli = client")
+		for i, s := range st {
+			c.Check(eng.DerivesFromCall(s.Instr.(*ssa.Store).Val, mk[0].Instr.(ssa.Value), 0), fmt.Sprintf("client-is-the-new-one[%d]", i), s.Instr, f, "the client kept for the stream is the one just obtained", "")
+		}
+	})
+	c.Rule("ORDER", "pkg/queue.NewConsumerGroup{meta probed before the page is created}", func() { existenceProbedBeforeCreate(c, "pkg/queue.NewConsumerGroup", "") })
 
 	// ---- the leader's log of a family is dropped only when EVERY follower's group is drained --------------------------------------
 	c.Rule("GUARD", "replica.partition.IsExpire{every group drained}", func() { expiryNeedsEveryGroupDrained(c) })
